@@ -153,7 +153,20 @@ func (fr *Frame) instr(in ssa.Instruction) {
 		r := fr.doCall(x.Common(), x, x.Pos())
 		fr.set(x, r)
 	case *ssa.Go:
-		// spawned function runs later: no effect on this section (see DESIGN 2.1 #1)
+		// spawned function runs later: no effect on this section (see DESIGN 2.1 #1); site clauses see the spawn as a call site
+		if f, ok := x.Call.Value.(*ssa.Function); ok && fr.contract != nil {
+			var args []Val
+			for _, a := range x.Call.Args {
+				args = append(args, fr.val(a))
+			}
+			name := fnName(f)
+			short := calleeShort(name)
+			fr.callOrd[short]++
+			fr.curQual = calleeQual(name)
+			fr.countCall(short)
+			fr.countCall(fr.curQual)
+			fr.siteClauses(short, fr.callOrd[short], "before", args, f, Val{}, x.Pos())
+		}
 	case *ssa.Defer:
 		fr.defers = append(fr.defers, deferRec{x, fr.curReach})
 	case *ssa.RunDefers:
